@@ -1,3 +1,4 @@
 import Parmcb.Props.C02b
 import Parmcb.Props.C02c
+import Parmcb.Props.C02d
 /-! all property theorems of C02 -/
